@@ -689,6 +689,8 @@ class Epoch(object):
                         return month
                 else:
                     raise ValueError("Invalid value for the input month")
+        else:
+            raise TypeError("Invalid input type")
 
     @staticmethod
     def is_leap(year):
